@@ -29,6 +29,14 @@ typedef Gudhi::cubical_complex::Bitmap_cubical_complex<PBase> Periodic;
 
 const double kInf = std::numeric_limits<double>::infinity();
 
+// Only for validating the persistence oracle in isolation (mutation experiments): -DC13_SKIP_SIGN_CHECKS switches the
+// direct sign checks off so that a sign defect has to be found through Persistent_cohomology.  Never defined by spec.py.
+#ifdef C13_SKIP_SIGN_CHECKS
+const bool kSkipSignChecks = true;
+#else
+const bool kSkipSignChecks = false;
+#endif
+
 // ------------------------------------------------------------------------------------------------ case description
 struct Spec {
   bool periodic_class = false;
@@ -90,6 +98,7 @@ void check_grid(vh::Case& c, const Spec& S) {
   if (side0) c.count("grid.single_vertex_side");
   size_t ninf = 0; for (double v : S.input) ninf += (v == kInf);
   if (ninf) c.count("grid.has_inf");
+  if (std::count(S.input.begin(), S.input.end(), -kInf)) c.count("grid.has_neg_inf");
   if (ninf == S.input.size()) c.count("grid.all_inf");
   std::set<double> distinct(S.input.begin(), S.input.end());
   if (distinct.size() < S.input.size()) c.count("grid.has_ties");
@@ -184,7 +193,7 @@ void check_grid(vh::Case& c, const Spec& S) {
   }
 
   // ---- alternating signs along the enumeration compose to zero; an edge has two distinct ends
-  for (size_t p = 0; p < N; ++p) {
+  for (size_t p = 0; p < N && !kSkipSignChecks; ++p) {
     if (mdim[p] == 1) {
       c.count("cmp.edge_ends");
       if (gb[p].size() != 2 || gb[p][0] == gb[p][1]) { c.violation("boundary.edge_ends", sig0, "edge " + vh::str(p) + " boundary " + vh::vstr(gb[p])); return; }
@@ -206,7 +215,7 @@ void check_grid(vh::Case& c, const Spec& S) {
   }
 
   // ---- incidence numbers: +-1, the documented formula, and alternating along the enumerated boundary
-  for (size_t p = 0; p < N; ++p) {
+  for (size_t p = 0; p < N && !kSkipSignChecks; ++p) {
     const std::string cs = sig0 + ",celldim=" + vh::str(mdim[p]);
     bool wraps = false;
     for (size_t f : gb[p]) for (int i = 0; i < d; ++i) if (S.per[i] && coord[p][i] == 2 * S.n[i] - 1 && coord[f][i] == 0) wraps = true;
@@ -362,9 +371,11 @@ inline void fill_values(vh::Rng& r, Spec& S) {
   int L = levels[r.below(sizeof(levels) / sizeof(levels[0]))];
   unsigned inf_den = (unsigned)r.pick(std::vector<int>{0, 0, 0, 16, 6, 2});   // probability 1/inf_den of +inf per value (0 = never)
   int shift = (int)r.below(3) - 1;
+  unsigned ninf_den = r.chance(1, 6) ? (unsigned)r.pick(std::vector<int>{12, 4}) : 0u;    // -inf as well in 1/6 of the cases
   S.input.resize(cnt);
   for (size_t i = 0; i < cnt; ++i) {
     if (inf_den && r.chance(1, inf_den)) S.input[i] = kInf;
+    else if (ninf_den && r.chance(1, ninf_den)) S.input[i] = -kInf;
     else S.input[i] = 0.25 * (double)((long)r.below((uint64_t)L) + shift * (L / 2));
   }
   if (r.chance(1, 60)) for (auto& v : S.input) v = kInf;
